@@ -186,7 +186,11 @@ func Sweeps(thorough bool, f func(name string, m ref.Msg, fits bool)) {
 		f(fmt.Sprintf("SA.propnum=%d", v), one(ref.Payload{T: ref.PSA, SA: []ref.Proposal{{Num: b, Proto: uint8(255 - v), Tr: []ref.Transform{tr(2, 5)}}}}), true)
 		s := sel4(b, 1, 2, 3, 4)
 		f(fmt.Sprintf("TS.ipproto=%d", v), one(ref.Payload{T: ref.PTSi, TS: []ref.Selector{s}}), true)
-		f(fmt.Sprintf("EAP.code=%d", v), one(ref.Payload{T: ref.PEAP, EAP: &ref.EAP{Code: b, ID: uint8(v * 7), Method: 1, Data: []byte{1}}}), true)
+		if v == 3 || v == 4 { // Success/Failure carry no data
+			f(fmt.Sprintf("EAP.code=%d", v), one(ref.Payload{T: ref.PEAP, EAP: &ref.EAP{Code: b, ID: uint8(v * 7)}}), true)
+		} else {
+			f(fmt.Sprintf("EAP.code=%d", v), one(ref.Payload{T: ref.PEAP, EAP: &ref.EAP{Code: b, ID: uint8(v * 7), Method: 1, Data: []byte{1}}}), true)
+		}
 		f(fmt.Sprintf("EAP.id=%d", v), one(ref.Payload{T: ref.PEAP, EAP: &ref.EAP{Code: 2, ID: b, Method: 254, VID: uint32(v) << 16, VType: uint32(v) << 24}}), true)
 		f(fmt.Sprintf("AKA.sub=%d", v), one(aka(1, 1, b, at(ref.AtKDF, []byte{b, 1}))), true)
 		// SPI lengths 0..255
